@@ -8,6 +8,8 @@ reference variables at all scopes) and a JSON list of operations interpreted aga
   setglobal/setstage set_global_variable / set_stage_variable
   setpglobal/setpstage  set_platform_global_variable / set_platform_stage_variable (platform explicit or None=active)
   add/update/delete  add_component / update_component (same id) / delete_component
+  refglobal/refstage/refcomp  get_platform_global_variables / get_platform_stage_variables / get_component with
+                     return_copy=False, the returned mapping changed at once (set or delete one variable)
   setactive          configure_platform(P): queries that name no platform follow the active platform
   query              get_component_configuration(comp, platform, flavour) [+ scribble all over the returned dict]
 
@@ -108,7 +110,7 @@ FLAVOURS = {
     "nodefault": dict(raw=False, include_default=False),
     "primitive": dict(raw=False, include_default=True, is_primitive=True, ignore_convert_errors=True),
 }
-MUTATORS = ["setactive", "setvar", "delvar", "setopt", "delopt", "setglobal", "setstage", "setpglobal", "setpstage", "add",
+MUTATORS = ["refglobal", "refstage", "refcomp", "setactive", "setvar", "delvar", "setopt", "delopt", "setglobal", "setstage", "setpglobal", "setpstage", "add",
             "update", "delete"]
 
 
@@ -201,7 +203,7 @@ def history(draw, max_ops=24, pool=POOL):
     ops = []
     kinds = (["setvar"] * 3 + ["delvar"] * 2 + ["setopt"] * 3 + ["delopt"] + ["setglobal"] * 2 + ["setstage"] * 2 +
              ["setpglobal"] * 2 + ["setpstage"] * 2 + ["add"] + ["update"] * 2 + ["delete"] + ["query"] * 4 +
-             ["setactive"])
+             ["setactive"] + ["refglobal", "refstage", "refcomp"])
 
     def target():
         if exists and draw(st.integers(0, 9)) < 9:
@@ -258,6 +260,21 @@ def history(draw, max_ops=24, pool=POOL):
             n = draw(st.sampled_from(VARS))
             ops.append([k, draw(st.integers(0, nstages - 1)), n, draw(_value(n)),
                         draw(st.sampled_from(platforms + [None] + platforms + [None, "N"]))])
+        elif k == "refglobal":
+            # the by-reference getters: get_platform_*_variables(return_copy=False) / get_component(return_copy=False)
+            # hand out the stored mapping (and invalidate at that moment); the caller changes it at once
+            n = draw(st.sampled_from(VARS))
+            ops.append([k, draw(st.sampled_from(platforms)), n, draw(st.one_of(st.none(), _value(n)))])
+        elif k == "refstage":
+            n = draw(st.sampled_from(VARS))
+            ops.append([k, draw(st.integers(0, nstages - 1)), draw(st.sampled_from(platforms)), n,
+                        draw(st.one_of(st.none(), _value(n)))])
+        elif k == "refcomp":
+            cid = target()
+            n = draw(st.sampled_from(VARS))
+            ops.append([k, cid, n, draw(st.one_of(st.none(), _value(n)))])
+            if tuple(cid) in exists:
+                exists[tuple(cid)].add(n)
         elif k == "setactive":
             # configure_platform(): queries that name no platform now mean another platform
             ops.append([k, draw(st.sampled_from(platforms))])
@@ -466,7 +483,22 @@ class History:
         if k not in MUTATORS:
             raise RuntimeError("harness: unknown op %r" % (op,))
         try:
-            if k == "setactive":
+            if k in ("refglobal", "refstage", "refcomp"):
+                if k == "refglobal":
+                    scope, name, value = L.get_platform_global_variables(op[1], return_copy=False), op[2], op[3]
+                elif k == "refstage":
+                    scope, name, value = L.get_platform_stage_variables(op[1], op[2], return_copy=False), op[3], op[4]
+                else:
+                    cid = tuple(op[1])
+                    if cid not in self.ever:
+                        self.ever.append(cid)
+                    scope = L.get_component(cid, return_copy=False).setdefault("variables", {})
+                    name, value = op[2], op[3]
+                if value is None:
+                    scope.pop(name, None)
+                else:
+                    scope[name] = value
+            elif k == "setactive":
                 if self.conf is not None:
                     return "rejected:not-offered-by-the-configuration-object"
                 L.configure_platform(op[1])
